@@ -67,15 +67,25 @@ def r_vtform(ctx):
             e = x[2]
             return e[0] == 'call' and e[1] == ('attr', ('c', ALPHA), 'index') and len(e[2]) == 1 and e[2][0][0] == 'iter' \
                 and e[2][0][1] == strand
-        if is_call(x, 'builtins.list') and x[2] and is_call(x[2][0], 'builtins.map') and len(x[2][0][2]) == 2:
-            m = x[2][0][2]
+        if is_call(x, 'builtins.list', 'builtins.tuple') and x[2]:
+            x = x[2][0]
+        if is_call(x, 'builtins.map') and len(x[2]) == 2:
+            m = x[2]
             return m[0] == ('attr', ('c', ALPHA), 'index') and m[1] == strand
         return False
     # (i) flag
     flag = strip_int(head[2])
     ok = flag[0] == 'bin' and flag[1] == '%' and flag[3] == ('c', 4) and is_call(flag[2], 'numpy.sum', 'builtins.sum') \
         and len(flag[2][2]) == 1 and values_term(flag[2][2][0])
-    run.check(ok, 'R-VTFORM', f, 'flag=(sum V) mod 4', nd.lineno, 'first symbol encodes the nucleotide sum modulo 4',
+    wit = flag[0] == 'bin' and flag[1] == '%' and flag[3][0] == 'c' and flag[3] != ('c', 4)
+    if flag[0] == 'bin' and flag[1] == '%' and flag[3] == ('c', 4) and is_call(strip_int(flag[2]), 'numpy.sum', 'builtins.sum') \
+            and len(strip_int(flag[2])[2]) == 1:
+        inner = strip_int(flag[2])[2][0]
+        ok = ok or values_term(inner)
+        # a sum over part of the values (a slice) is a recognised deviation
+        if inner[0] == 'sub' and inner[2][0] == 'slice' and values_term(inner[1]):
+            wit = True
+    _tri(run, ok, wit, 'R-VTFORM', f, 'flag=(sum V) mod 4', nd.lineno, 'first symbol encodes the nucleotide sum modulo 4',
               'the first check symbol is ALPHA[%s], not ALPHA[(sum of nucleotide values) mod 4]' % show(flag)[:120],
               inputs='strands where the two differ; a single substitution may leave the first symbol unchanged')
     # (ii)-(iii) value
